@@ -1,4 +1,5 @@
 """C18 — LaTeX en/decoding touches only text values, round-trips, and contains errors (DESIGN 4/C18)."""
+import bibtexparser
 import itertools
 import re
 
@@ -167,6 +168,25 @@ def check_state(acc):
             fresh_back = conv(LatexDecodingMiddleware(), conv(LatexEncodingMiddleware(keep_math=opt[0], enclose_urls=opt[1]), text))
             sback = conv(d, conv(e, text, "string"), "string")
             c = {"state_text": text, "options": list(opt)}
+            # the same text carried by blocks that earlier stages left their notes on (enclosings removed by the
+            # default parse stack: none / braces / quotes; resolved references): the notes are not the value
+            try:
+                carrier = bibtexparser.parse_string('@string{s = 12}\n@string{r = "q"}\n@article{k, t = 2020, u = {x}, v = "y", w = r}')
+                for f in carrier.entries[0].fields:
+                    f.value = text
+                for st in carrier.strings:
+                    st.value = text
+                rt = d.transform(e.transform(carrier))
+                carried = [("field " + f.key, f.value) for f in rt.entries[0].fields] + [("string " + st.key, st.value) for st in rt.strings]
+                if len(rt.blocks) != 3 or len(carried) != 6:
+                    carried = [("blocks", [type(b).__name__ for b in rt.blocks])]
+            except Exception as ex:
+                acc.violation({"oracle": "no_exception", "exception": type(ex).__name__}, {"case": c, "observed": repr(ex), "expected": "no exception"}, size=len(text))
+                continue
+            wrong = [(k, v) for k, v in carried if v != back]
+            if wrong and back == fresh_back:
+                acc.violation({"oracle": "conversion_independent_of_metadata_left_by_earlier_stages", "where": wrong[0][0].split()[0]}, {"case": c, "text": text, "observed": wrong[:3], "expected": back}, size=len(text))
+                continue
             if back != fresh_back:
                 acc.violation({"oracle": "long_lived_instance_equals_fresh"}, {"case": c, "text": text, "observed": back, "expected": fresh_back}, size=len(text))
             elif sback != back:
